@@ -71,6 +71,7 @@ type c09Case struct {
 	Hdr  *HdrSpec  `json:"hdr,omitempty"`
 	Recs []RecSpec `json:"recs,omitempty"`
 	WC   int       `json:"wc,omitempty"`
+	Stmt bool      `json:"stmt_yields,omitempty"`
 }
 
 type c09Combo struct {
@@ -244,6 +245,7 @@ func (p *c09) Gen(t *Tape, tier string, run int) interface{} {
 	c := p.combos[d.combo].c
 	c.Fault = d.fault
 	c.Delay = t.Pick("work", 0, 1, 3)
+	c.Stmt = t.Chance("work", 1, 6)
 	if c.Side == "reader" {
 		c.Kind = []string{"read+seek", "read+seek", "read+seek+byte"}[t.Draw("work", 3)]
 		if len(c.File.Build()) > 20000 {
@@ -285,6 +287,7 @@ func mkCache(kind string, capacity int) bgzf.Cache {
 func (p *c09) exec(x *Exec, c *c09Case) (vd *Verdict, nW, nR, nS int) {
 	vd = &Verdict{}
 	x.StmtYields = false
+	x.StmtAll = c.Stmt && (c.File == nil || len(c.File.Members) > 0 && c.File.Members[0].Len < 20000)
 	switch c.Side {
 	case "writer":
 		return p.execWriter(x, c, vd)
